@@ -1,10 +1,10 @@
-\* table mutators + migrations, no plans: 27,729 distinct / 2.6M generated, ~10 s on an idle machine
+\* table mutators + migrations, no plans: 12,663 distinct / 1.15M generated, seconds on an idle machine
 SPECIFICATION Spec
 CONSTANTS
   Hs = {3}
   Ps = {2}
   Ss = {3}
-  Phases = {0, 1, 2}
+  Phases = {0, 1}
   MaxMig = 2
   PlanH = 0
 VIEW View
